@@ -56,6 +56,7 @@ def run_block(machine_name, verif_seed, tier, profile, start, count,
          'signatures': set(), 'violations': [], 'harness_errors': [],
          'samples': [], 'skipped': {}, 'digests': {},
          'hashseed': os.environ.get('PYTHONHASHSEED'),
+         'optimize': sys.flags.optimize,
          'tree': core.tree_hash()}
   for i in range(start, start + count):
     desc = None
@@ -90,7 +91,7 @@ def run_block(machine_name, verif_seed, tier, profile, start, count,
     out['transitions'].update(st.get('transitions', ()))
     if res.get('nontrivial'):
       out['nontrivial'] += 1
-      out['signatures'].add(res['signature'][:14])
+      out['signatures'].add(res['signature'][:11])
     if want_digests:
       out['digests'][str(i)] = res['digest']
     if res.get('violation'):
